@@ -70,6 +70,7 @@ func thoroughExtras(w *World, r *Report, prop string, extra map[string]any) {
 	}
 	// (c) checker validation
 	extra["variant_matrix"] = runVariantMatrix(prop)
+	extra["seeded_matrix"] = runSeededMatrix(prop)
 }
 
 func runVariantMatrix(prop string) any {
@@ -246,3 +247,38 @@ func deadBlocks(fn *ssa.Function) map[*ssa.BasicBlock]bool {
 }
 
 var _ = callgraph.CalleesOf
+
+// runSeededMatrix applies every independently seeded change kept under
+// /verif/seeded for this property to a scratch copy of the tree under analysis
+// and runs this property's check on it (static part only; the demonstrations
+// were run when the change was accepted). Validation of the checker: never
+// gates the verdict.
+func runSeededMatrix(prop string) any {
+	tool := filepath.Join(verifDir(), "tools", "seeded.py")
+	if _, err := os.Stat(tool); err != nil {
+		return map[string]any{"skipped": "seeded tool not found"}
+	}
+	tmp, err := os.CreateTemp("", "bsseed-matrix-*.json")
+	if err != nil {
+		return map[string]any{"skipped": err.Error()}
+	}
+	tmp.Close()
+	defer os.Remove(tmp.Name())
+	cmd := exec.Command("python3", tool, "matrix", prop, tmp.Name())
+	cmd.Env = append(os.Environ(), "BSCHECK_REPO="+repoDir())
+	out, _ := cmd.CombinedOutput()
+	data, err := os.ReadFile(tmp.Name())
+	if err != nil || len(data) == 0 {
+		return map[string]any{"error": "no result", "output": tail(string(out), 600)}
+	}
+	var rows []map[string]any
+	if err := json.Unmarshal(data, &rows); err != nil {
+		return map[string]any{"error": err.Error()}
+	}
+	sum := map[string]int{}
+	for _, x := range rows {
+		st, _ := x["status"].(string)
+		sum[st]++
+	}
+	return map[string]any{"summary": sum, "changes": rows, "note": "independently seeded property-breaking changes (see DESIGN.md §10); validation of the checker, not of /repo"}
+}
